@@ -229,6 +229,15 @@ def handle : Handler
     | some cdom, some oo, some cpath, some srv, some path =>
       some (outBool (domainMatch cdom oo srv) ++ outBool (pathMatch cpath path))
     | _, _, _, _, _ => some badArgs
+  -- jar.int <text>: `int(text.strip() or 0)` as `_from_response_header` evaluates a present Max-Age value
+  | "jar.int", [t] =>
+    match unhexStr t with
+    | some t =>
+      let v := Py.strip t
+      some (if v.isEmpty then "0" else match pyInt v with
+        | some i => toString i
+        | none => "EXC:ValueError")
+    | none => some badArgs
   | "cookie.parsemd", [h, env] =>
     match unhexStr h, boolArg env with
     | some h, some env =>
